@@ -60,3 +60,10 @@ func (t *TCPListener) Close() []*Session {
 	}
 	return ss
 }
+
+// SessionsSnapshot returns the sessions accepted so far.
+func (t *TCPListener) SessionsSnapshot() []*Session {
+	t.mu.Lock()
+	defer t.mu.Unlock()
+	return append([]*Session{}, t.Sessions...)
+}
